@@ -334,3 +334,31 @@ func HandSign(s HandSpec) []byte {
 	p[gocose.HeaderLabelCritical] = crit
 	return HandCOSE(p, s.Payload, s.Signer, nil)
 }
+
+// RawSign produces the raw signature a signature-generator plugin returns for payload: ECDSA (r||s) or RSASSA-PSS
+// with the hash bound to the key.
+func RawSign(ent *Ent, payload []byte) []byte {
+	h := HashFor(ent.Key)
+	hh := h.New()
+	hh.Write(payload)
+	d := hh.Sum(nil)
+	switch k := ent.Key.(type) {
+	case *ecdsa.PrivateKey:
+		r, s, err := ecdsa.Sign(rand.Reader, k, d)
+		if err != nil {
+			panic(err)
+		}
+		n := (k.Curve.Params().BitSize + 7) / 8
+		sig := make([]byte, 2*n)
+		r.FillBytes(sig[:n])
+		s.FillBytes(sig[n:])
+		return sig
+	case *rsa.PrivateKey:
+		sig, err := rsa.SignPSS(rand.Reader, k, h, d, &rsa.PSSOptions{SaltLength: rsa.PSSSaltLengthEqualsHash})
+		if err != nil {
+			panic(err)
+		}
+		return sig
+	}
+	panic("key type")
+}
